@@ -168,6 +168,35 @@ def genKind (o : Out) : IO Unit := do
         emit o "kind" files
         emit o "kind" files.reverse
 
+/-- elements NAMED like a primitive keyword (written with a backslash: `struct \\string`, `module A::\\uint8`): the keyword itself, also
+    when it is reached through an alias of the primitive (`typealias Name = string`, `typealias Label = Name`), still means the
+    primitive; only the escaped spelling `\\string` is looked up in the scopes -/
+def genKeywordNames (o : Out) : IO Unit := do
+  for (kw, p) in [("string", Prim.string), ("uint8", Prim.uint8), ("bool", Prim.bool), ("varint62", Prim.varint62)] do
+    for kind in [0, 1, 2, 3, 4, 5] do
+      for home in ["A", "A::B", "C"] do
+        let shadow : List SFile :=
+          match kind with
+          | 0 => [mkFile home [structDef kw [fld "chars" (.mk [] (.seq (primRef .uint8)) false)]]]
+          | 1 => [mkFile home [enumDef kw none [enr "a"]]]
+          | 2 => [mkFile home [.custom [] [] kw]]
+          | 3 => [mkFile home [ifaceDef kw [] []]]
+          | 4 => [mkFile home [.alias [] [] kw (primRef .int32)]]
+          | _ => [mkFile (home ++ "::" ++ kw) [structDef "Inner" []]]
+        let integral := kw == "uint8" || kw == "varint62"
+        let user := mkFile "A::B"
+          ([.alias [] [] "Name" (primRef p), .alias [] [] "Label" (named "Name"),
+            structDef "Person" [fld "direct" (primRef p), fld "first" (named "Name"), fld "label" (named "Label"),
+                                fld "names" (.mk [] (.seq (named "Name")) false),
+                                fld "byName" (.mk [] (.dict (primRef .int32) (named "Label")) false)],
+            ifaceDef "Svc" [] [opDef "op" [prm "x" (named "Name")] (.single none false (named "Label"))]] ++
+           (if integral then [enumDef "Color" (some (named "Name")) [enr "red"], enumDef "Shade" (some (named "Label")) [enr "dark"]] else []))
+        -- a second user that writes the ESCAPED name: bound to whatever the scopes hold (or to the primitive when nothing shadows it)
+        let escUser := mkFile "A::B" [structDef "Boxed" [fld "boxed" (named kw)], .alias [] [] "Esc" (named kw),
+                                     structDef "Boxed2" [fld "viaAlias" (named "Esc")]]
+        for files in [shadow ++ [user], user :: shadow, shadow ++ [escUser], escUser :: shadow, shadow ++ [user, escUser]] do
+          emit o "keyword-names" files
+
 /-- all lists of length `n` over `xs` without repetition -/
 def injections {α} [BEq α] (xs : List α) : Nat → List (List α)
   | 0 => [[]]
@@ -216,6 +245,7 @@ end C03
 
 def genC03 (tier : Tier) (seed : Nat) (o : Out) : IO Unit := do
   C03.genKind o
+  C03.genKeywordNames o
   C03.genBases o
   C03.genDup o
   C03.genScope tier o
